@@ -1,11 +1,13 @@
 #!/bin/sh
-# development helper: confirm_retest.sh <PROP> <k> <nextest filter expr>  -- re-run load-sensitive tests that failed during a confirmation,
-# alone, in the seed's scratch worktree with the patch applied; appends to confirm.log
+# development helper: confirm_retest.sh <PROP> <k> <cargo-nextest target args...>  -- re-run load-sensitive tests that failed during a
+# confirmation, alone, in the seed's scratch worktree with the patch applied; appends to confirm.log.
+#   e.g. confirm_retest.sh C13 1 -p oxidize-pdf --test forms_performance_scalability_test
+#        confirm_retest.sh C13 1 -p oxidize-pdf --lib -E 'test(test_parser_optimization_repeated_operations)'
 P=$1; K=$2; shift 2; WT=/tmp/seed/$P; OUT=/tmp/seed/${P}_out/$K
 export CARGO_TARGET_DIR=$WT/target CARGO_NET_OFFLINE=true
 cd $WT || exit 2
 git checkout -q -- . ; git apply $OUT/patch.diff || exit 1
 echo "-- re-run alone (patch applied) of the load-sensitive tests: $*" >> $OUT/confirm.log
-cargo nextest run --workspace --offline --no-fail-fast -E "$*" 2>&1 | grep -E "^\s+(PASS|FAIL)|Summary" | sed -E 's/^\s+//' >> $OUT/confirm.log
+cargo nextest run --offline --no-fail-fast "$@" 2>&1 | grep -E "^\s+(PASS|FAIL)|Summary" | sed -E 's/^\s+//' | grep -E "FAIL|Summary|performance|optimization" | tail -12 >> $OUT/confirm.log
 git checkout -q -- .
 tail -4 $OUT/confirm.log
